@@ -162,3 +162,17 @@ Definition merged_exists (pnum : N) (ks : list bytes) (s : store) : N :=
    ok p = whether partition p's sub-command succeeded. *)
 Definition plset_reply (ok : N -> bool) (g : groups (bytes * bytes)) : list bool :=
   concat (map (fun e => repeat (ok (fst e)) (length (snd e))) g).
+
+(* the key/value store written by (PL)SET: newest binding first *)
+Definition kvs := list (bytes * bytes).
+Fixpoint kv_get (k : bytes) (s : kvs) : option bytes :=
+  match s with
+  | [] => None
+  | (k', v) :: r => if bytes_eqb k k' then Some v else kv_get k r
+  end.
+Definition apply_sets (l : list (bytes * bytes)) (s : kvs) : kvs :=
+  fold_left (fun s kv => (fst kv, snd kv) :: s) l s.
+(* value of key k after the merged PLSET: looked up in the store of k's own partition only,
+   which received only its own group *)
+Definition plset_get (pnum : N) (l : list (bytes * bytes)) (k : bytes) : option bytes :=
+  kv_get k (apply_sets (group_of (part_of (route_key k) pnum) (group_kvs pnum l)) []).
